@@ -961,3 +961,29 @@ package tabular
 //@ global ErrMissingPropertyHolder immutable -- an errors.New value, only returned
 //@ global LinkerSpecifiedVersion immutable -- set by the linker (-X), only read by Versions
 //@ global noProperty immutable -- pointer to the one emptyProperty (a field-less struct)
+
+//@ -- small leaf functions (C09: total)
+//@ func (NoSuchCellError).Error
+//@   tags C09
+//@   assigns nothing
+//@   ensures true
+
+//@ func (emptyProperty).GoString
+//@   tags C09
+//@   assigns nothing
+//@   ensures result == "NoValue()"
+
+//@ func NoProperty
+//@   tags C09,C12
+//@   assigns nothing
+//@   ensures result == mkiface(type[*emptyProperty], box(noProperty))
+
+//@ func Versions
+//@   tags C09,C16
+//@   assigns new(string)
+//@   ensures len(result) >= 1
+
+//@ func debugCallbackSetCount
+//@   tags C09
+//@   assigns nothing
+//@   ensures cs == nil ==> result == 0
